@@ -473,6 +473,11 @@ def run(ctx: Ctx) -> None:
         for k in [k for k in rep.floors if k.startswith("C13.")]:
             rep.floors["C05.R10/" + k] = rep.floors.pop(k)
     if rep.prop == "C05":
+        rep.rule("C05.R16", "two values that differ other than by the documented identifications get different signatures: the pre-images of an integer, a float and None are not "
+                            "the pre-image of a string (abstract evaluation of the value hasher on pairs of values of different types)")
+        n16 = cross_type_distinct(ctx, "C05.R16")
+        rep.floor("C05.R16", n16, 4)
+    if rep.prop == "C05":
         from .c01 import composer_components
         rep.rule("C05.R15", "as C01.R1: the values of the tracked variables and of the arguments (hashed by the value hasher) are part of every signature they can influence - the "
                             "return signature of the function and the call-site context of the calls it makes: two values of a tracked variable never share the key of a nested keep")
@@ -1073,4 +1078,40 @@ def dict_order_insensitive(ctx: Ctx, rule: str) -> int:
                     what="equal dictionaries built in different insertion orders get different signatures (hash-seed dependent for dictionaries built from sets)")
         else:
             rep.ok(rule, bf_.qname, desc, bf_.loc(br_))
+    return n
+
+
+CROSS_TYPE_PAIRS = [
+    ("1", 1, '"\\x00\\x00\\x00\\x01"', "\x00\x00\x00\x01"),
+    ("0.0", 0.0, '"\\x00" * 8', "\x00" * 8),
+    ("None", None, '"__DDS_NONE__"', "__DDS_NONE__"),
+    ("7", 7, '"\\x00\\x00\\x00\\x07"', "\x00\x00\x00\x07"),
+]
+
+
+def cross_type_distinct(ctx: Ctx, rule: str) -> int:
+    """Values of different supported types that no documented identification relates (list = tuple, bool = int, path / date = its text form are documented) are digested
+    from different bytes: the encoding of an integer, a float or None is not also the UTF-8 encoding of some string.  Decided by abstract evaluation of the pre-images."""
+    rep = ctx.report
+    outer = ctx.prog.func("dds.fun_args.dds_hash")
+    n = 0
+    bad, und = [], []
+    for la, a, lb, b in CROSS_TYPE_PAIRS:
+        pa, wa = abstract_preimage(ctx, a)
+        pb, wb = abstract_preimage(ctx, b)
+        if pa is None or pb is None:
+            und.append(f"dds_hash({la}) / dds_hash({lb}): {wa or wb}")
+            continue
+        n += 1
+        if pa == pb:
+            bad.append(f"dds_hash({la}) and dds_hash({lb}) digest the same bytes {pa!r}")
+    desc = "an integer, a float and None are digested from bytes that no string is digested from (the encodings of different types are domain-separated)"
+    rep.roles[outer.qname] = "role:value-hasher-entry"
+    if bad:
+        rep.bad(rule, outer.qname, desc, outer.loc(), bad + ["dds.keep('/q', f, 1094861636) and dds.keep('/q', f, 'ABCD') share a signature: the result computed for the integer is served for the "
+                "string (repr, type-dependent code ... give another result)"], "untagged-encodings", what="values of different types are digested from the same bytes (no type tag): one is served the other's result")
+    elif und:
+        rep.unknown(rule, outer.qname, "value hasher uses syntax outside the abstract evaluator", outer.loc(), und[:4])
+    else:
+        rep.ok(rule, outer.qname, desc, outer.loc())
     return n
